@@ -439,3 +439,48 @@ pub fn c06_abort_from_task_spawned() {
     let v = nd::any_u8();
     dispatch!(v, abort_from_task_case, 1 2);
 }
+
+/// Aborting one child of `Command::all` through the child's own handle must not touch its siblings
+/// (one level of nesting: each child is hosted in a task of the combined command).
+/// N: 0 = abort the first child, 1 = abort the second child, 2 = no abort (control).
+fn all_child_abort_case<const N: u8>() {
+    let (p1, p2) = (Arc::new(Probe::default()), Arc::new(Probe::default()));
+    let (s1, s2) = (Slot::new(), Slot::new());
+    let tag = nd::any_u8();
+    let park = Step { keep_slot: true, ..Step::pending() };
+    let work = Step { effect: true, ready: true, ..Step::pending() };
+    let c1: Cmd = crate::script::command_with([park, work, Step::pending()], &p1, &s1, tag);
+    let c2: Cmd = crate::script::command_with([park, work, Step::pending()], &p2, &s2, tag);
+    let (h1, h2) = (c1.abort_handle(), c2.abort_handle());
+    let mut all: Cmd = crux_core::Command::all([c1, c2]);
+    assert!(!all.is_done(), "children parked");
+    assert!(p1.polls() == 1 && p2.polls() == 1, "both children started");
+    match N {
+        0 => h1.abort(),
+        1 => h2.abort(),
+        _ => {}
+    }
+    // both children's wake sources fire
+    if let Some(w) = s1.take() {
+        w.wake();
+    }
+    if let Some(w) = s2.take() {
+        w.wake();
+    }
+    let n_eff = all.effects().count();
+    assert!(p1.polls() == if N == 0 { 1 } else { 2 }, "first child runs again iff it was not aborted");
+    assert!(p2.polls() == if N == 1 { 1 } else { 2 }, "second child runs again iff it was not aborted");
+    assert!(n_eff == if N == 2 { 2 } else { 1 }, "exactly the surviving children's effects");
+    assert!(!all.was_aborted(), "aborting a child does not abort the combined command");
+    assert!(all.is_done(), "combined command done");
+    nd_cover!(N == 0, "first child aborted");
+    nd_cover!(N == 1, "second child aborted");
+    forget((all, p1, p2, s1, s2));
+}
+
+#[cfg_attr(kani, kani::proof, kani::unwind(7))]
+#[cfg_attr(kani, kani::stub(core::mem::MaybeUninit::write, crate::common::maybe_uninit_write))]
+pub fn c06_all_child_abort() {
+    let n = nd::any_u8();
+    dispatch!(n, all_child_abort_case, 0 1 2);
+}
